@@ -315,6 +315,12 @@ def run(ck):
     ck.log("proof stages done; %d histories/programs" % len(items))
     model = ck.coq_eval(lang.COQ_HEADER, [lang.model_expr(h) for h in items], shard=20)
     ck.log("reference evaluated")
+    # a program the reference cannot finish within its fuel is not compared: do not run it on the engine either
+    # (it would cost the time limit under every configuration)
+    keep = [k for k, m in enumerate(model) if "FUEL" not in m]
+    ck.cov["out_of_fuel_skipped"] = len(items) - len(keep)
+    items = [items[k] for k in keep]
+    model = [model[k] for k in keep]
     nontrivial = set()
     per_cfg = {}
     for env in chosen:
